@@ -179,7 +179,7 @@ class ProgGen:
         if depth < p.max_depth:
             if p.blocks:
                 ks += ["block"] * p.block_weight
-            if p.scopes and not in_macro and not in_loop:
+            if p.scopes and not in_macro:
                 ks += ["scope"] * p.scope_weight
             if p.loops:
                 ks += ["for"] * p.loop_weight
@@ -220,6 +220,11 @@ class ProgGen:
                 # labels planned inside a branch only exist when it is assembled: they are visible to the
                 # branch itself only (generator-side pseudo scope; the assembler puts them in the enclosing scope)
                 node["gs_t"], node["gs_e"] = GS(gs, "ifbranch"), GS(gs, "ifbranch")
+                node["certain"] = rng.random() < 0.3
+                if node["certain"]:
+                    # literal non-zero condition: the branch is written out by hand in the equivalent program, so its
+                    # names belong to (and are referenced from) the enclosing scope
+                    node["gs_t"] = gs
                 node["t"] = self.skeleton(node["gs_t"], rng.randint(1, 3), depth + 1, in_macro, in_loop, allow_calls)
                 node["e"] = self.skeleton(node["gs_e"], rng.randint(1, 2), depth + 1, in_macro, in_loop, allow_calls) if rng.random() < 0.5 else None
             elif k == "call":
@@ -361,6 +366,14 @@ class ProgGen:
                 return {"k": "ins", "m": rng.choice(["bra", "bne", "beq", "bcc", "bcs", "bmi", "bpl"]), "shape": ["", None, None], "sfx": "",
                         "e": ["id", rng.choice(near)]}
         k = rng.random()
+        if self.p.unsized_symbols and rng.random() < 0.12:
+            # any mnemonic / shape with an unsized operand of ANY magnitude: the cell for the inferred width may not
+            # exist -- then the assembly has to fail, not to emit another width than the one the labels were laid out with
+            c = rng.choice(sup["op"])
+            lo, hi = rng.choice([(0, 0xFF), (0, 0xFF), (0x100, 0xFFFF), (0x10000, 0xFFFFFF)])
+            xs = {n: v for n, v in self.visible_x(gs).items() if lo <= v <= hi}
+            e = ["id", rng.choice(sorted(xs))] if xs and rng.random() < 0.4 else self.lit(lo, hi)
+            return {"k": "ins", "m": c[0], "shape": [c[1], c[2], c[3]], "sfx": "", "e": e}
         if self.p.unsized_symbols and k < 0.35:
             m = rng.choice(sup["allw"])
             atoms = self.visible_labels(gs) + self.visible_eq(gs) + sorted(self.visible_x(gs))
@@ -447,7 +460,9 @@ class ProgGen:
                 out.append({"k": "for", "v": var, "lo": lo_t, "hi": hi_t, "b": self.fill(node["b"], child, depth + 1)})
             elif k == "if":
                 form = rng.random()
-                if form < 0.15:
+                if node.get("certain"):
+                    c = ["lit", rng.choice([1, 2, 5, 0xFF]), rng.choice(["d", "x"])]
+                elif form < 0.15:
                     c = ["id", "k_undefined"]
                 elif form < 0.3:
                     c = ["lit", rng.choice([0, 1, 5]), "d"]
